@@ -32,16 +32,10 @@ import (
 
 const stressG = 32
 
-// obj is what the stress constructor returns: a fresh object per call.
-type obj struct {
-	key string
-	by  int // index of the goroutine whose Get ran the constructor
-}
-
 // waitOrTimeout waits for a stress round.  A round that does not finish means
 // goroutines are stuck inside the code under test; free-running stress cannot
-// attribute that to a clause of the property (schedule replay does), so it is
-// reported as checker trouble.
+// attribute that to a clause of the property (schedule replay and race-contend
+// do), so it is reported as checker trouble.
 func waitOrTimeout(wg *sync.WaitGroup) error {
 	done := make(chan struct{})
 	go func() { wg.Wait(); close(done) }()
@@ -60,6 +54,9 @@ func spin(n int) {
 }
 
 // raceOnce: vh c17 race-once <result> <rounds>
+// The rounds cycle through the instantiations [string,*int], [string,error],
+// [string,any], [int,*int]; in every round the constructor returns the zero
+// value of V for a random subset of the keys.
 func raceOnce(args []string) error {
 	if len(args) != 2 {
 		return fmt.Errorf("usage: race-once <result> <rounds>")
@@ -72,100 +69,128 @@ func raceOnce(args []string) error {
 	seedRng := vh.Rand(1701)
 	gets, keysTotal := 0, 0
 	for round := 0; round < rounds; round++ {
-		nk := 1 + seedRng.IntN(4)
-		keys := make([]string, nk)
-		for i := range keys {
-			keys[i] = "k" + strconv.Itoa(i)
+		var g, k int
+		var err error
+		switch round % 4 {
+		case 0:
+			g, k, err = raceOnceRound(instPtr, round, seedRng, res)
+		case 1:
+			g, k, err = raceOnceRound(instErr, round, seedRng, res)
+		case 2:
+			g, k, err = raceOnceRound(instAny, round, seedRng, res)
+		default:
+			g, k, err = raceOnceRound(instIntKey, round, seedRng, res)
 		}
-		gids := make([]uint64, stressG)
-		cons := make([]map[string]int, stressG) // cons[i]: constructor calls made by goroutine i, per key
-		results := make([][]*obj, stressG)
-		asked := make([][]string, stressG)
-		seeds := make([]uint64, stressG)
-		for i := range seeds {
-			seeds[i] = seedRng.Uint64()
-			cons[i] = map[string]int{}
-		}
-		delay := seedRng.IntN(4)
-		oc := syncutil.NewOnceConstructor(func(k string) *obj {
-			// No shared state: find the calling goroutine's private slot.
-			id := curGID()
-			me := -1
-			for i, g := range gids {
-				if g == id {
-					me = i
-					break
-				}
-			}
-			if me >= 0 {
-				cons[me][k]++
-			}
-			spin(delay)
-			return &obj{key: k, by: me}
-		})
-		var ready, wg sync.WaitGroup
-		start := make(chan struct{})
-		for i := 0; i < stressG; i++ {
-			i := i
-			ready.Add(1)
-			wg.Add(1)
-			go func() {
-				defer wg.Done()
-				gids[i] = curGID()
-				rng := rand.New(rand.NewPCG(seeds[i], uint64(i)))
-				m := 1 + rng.IntN(4)
-				mine := make([]string, m)
-				for j := range mine {
-					mine[j] = keys[rng.IntN(nk)]
-				}
-				out := make([]*obj, 0, m)
-				ready.Done()
-				<-start
-				for _, k := range mine {
-					out = append(out, oc.Get(k))
-				}
-				asked[i], results[i] = mine, out
-			}()
-		}
-		ready.Wait()
-		close(start)
-		if err := waitOrTimeout(&wg); err != nil {
+		if err != nil {
 			return err
 		}
-		// validation, single-threaded
-		total := map[string]int{}
-		for i := range cons {
-			for k, n := range cons[i] {
-				total[k] += n
-			}
-		}
-		first := map[string]*obj{}
-		for i := range results {
-			for j, k := range asked[i] {
-				gets++
-				x := results[i][j]
-				if total[k] != 1 {
-					res.Mismatch("OnceConstructor race stress: constructor invocations per key",
-						fmt.Sprintf("the constructor was invoked %d times for one key under %d concurrent goroutines", total[k], stressG),
-						map[string]any{"round": round, "key": k, "keys": nk})
-				}
-				if x == nil || x.key != k {
-					res.Mismatch("OnceConstructor race stress: result", "Get returned nil / an object constructed for another key",
-						map[string]any{"round": round, "key": k, "goroutine": i})
-					continue
-				}
-				if f, ok := first[k]; !ok {
-					first[k] = x
-				} else if f != x {
-					res.Mismatch("OnceConstructor race stress: result identity",
-						"two Gets of the same key returned different objects",
-						map[string]any{"round": round, "key": k, "goroutine": i, "constructed_by": []int{f.by, x.by}})
-				}
-			}
-		}
-		keysTotal += len(first)
+		gets += g
+		keysTotal += k
 	}
 	return res.Close(map[string]any{"rounds": rounds, "gets": gets, "keys": keysTotal, "goroutines": stressG})
+}
+
+func raceOnceRound[K comparable, V any](in inst[K, V], round int, seedRng *rand.Rand, res *vh.Result) (gets, nkeys int, err error) {
+	nk := 1 + seedRng.IntN(4)
+	keys := make([]string, nk)
+	zero := map[string]bool{}
+	for i := range keys {
+		keys[i] = string(rune('a' + i))
+		zero[keys[i]] = seedRng.IntN(3) == 0
+	}
+	gids := make([]uint64, stressG)
+	cons := make([]map[string]int, stressG) // cons[i]: constructor calls made by goroutine i, per key
+	results := make([][]V, stressG)
+	asked := make([][]string, stressG)
+	seeds := make([]uint64, stressG)
+	for i := range seeds {
+		seeds[i] = seedRng.Uint64()
+		cons[i] = map[string]int{}
+	}
+	delay := seedRng.IntN(4)
+	oc := syncutil.NewOnceConstructor(func(kk K) (v V) {
+		// No shared state: find the calling goroutine's private slot.
+		k := in.str(kk)
+		id := curGID()
+		me := -1
+		for i, g := range gids {
+			if g == id {
+				me = i
+				break
+			}
+		}
+		n := 0
+		if me >= 0 {
+			cons[me][k]++
+			n = cons[me][k]
+		}
+		spin(delay)
+		if zero[k] {
+			return v
+		}
+		return in.mk(1 + me*1000 + n)
+	})
+	var ready, wg sync.WaitGroup
+	start := make(chan struct{})
+	for i := 0; i < stressG; i++ {
+		i := i
+		ready.Add(1)
+		wg.Add(1)
+		go func() {
+			defer wg.Done()
+			gids[i] = curGID()
+			rng := rand.New(rand.NewPCG(seeds[i], uint64(i)))
+			m := 1 + rng.IntN(4)
+			mine := make([]string, m)
+			for j := range mine {
+				mine[j] = keys[rng.IntN(nk)]
+			}
+			out := make([]V, 0, m)
+			ready.Done()
+			<-start
+			for _, k := range mine {
+				out = append(out, oc.Get(in.key(k)))
+			}
+			asked[i], results[i] = mine, out
+		}()
+	}
+	ready.Wait()
+	close(start)
+	if err := waitOrTimeout(&wg); err != nil {
+		return 0, 0, err
+	}
+	// validation, single-threaded
+	total := map[string]int{}
+	for i := range cons {
+		for k, n := range cons[i] {
+			total[k] += n
+		}
+	}
+	first := map[string]V{}
+	for i := range results {
+		for j, k := range asked[i] {
+			gets++
+			x := results[i][j]
+			det := map[string]any{"round": round, "key": k, "keys": nk, "instantiation": in.name, "constructor_returns_zero": zero[k]}
+			if total[k] != 1 {
+				what := fmt.Sprintf("the constructor was invoked %d times for one key under %d concurrent goroutines (%s)", total[k], stressG, in.name)
+				if zero[k] {
+					what += "; the constructor returns the zero value for this key"
+				}
+				res.Mismatch("OnceConstructor race stress: constructor invocations per key ("+in.name+")", what, det)
+			}
+			if (in.id(x) == 0) != zero[k] || in.id(x) < 0 {
+				res.Mismatch("OnceConstructor race stress: result", "Get returned the zero value for a key constructed non-zero, or vice versa", det)
+				continue
+			}
+			if f, ok := first[k]; !ok {
+				first[k] = x
+			} else if any(f) != any(x) {
+				res.Mismatch("OnceConstructor race stress: result identity", "two Gets of the same key returned different objects", det)
+			}
+		}
+	}
+	return gets, len(first), nil
 }
 
 // raceSema: vh c17 race-sema <result> <rounds>
@@ -290,83 +315,114 @@ func stressOnce(args []string) error {
 	var clock atomic.Int64
 	gets := 0
 	for round := 0; round < rounds; round++ {
-		nk := 1 + seedRng.IntN(4)
-		var shared evlog
-		var nextID atomic.Int64
-		var ncons sync.Map // key -> *atomic.Int64
-		delay := seedRng.IntN(6)
-		oc := syncutil.NewOnceConstructor(func(k string) *int {
-			c, _ := ncons.LoadOrStore(k, &atomic.Int64{})
-			c.(*atomic.Int64).Add(1)
-			x := new(int)
-			id := int(nextID.Add(1))
-			*x = id
-			spin(delay)
-			shared.add(clock.Add(1), map[string]any{"t": "cons", "k": k, "v": id})
-			return x
-		})
-		logs := make([][]stamped, stressG)
-		seeds := make([]uint64, stressG)
-		for i := range seeds {
-			seeds[i] = seedRng.Uint64()
+		var g int
+		var err error
+		switch round % 4 {
+		case 0:
+			g, err = stressOnceRound(instPtr, round, seedRng, &clock, tr, res)
+		case 1:
+			g, err = stressOnceRound(instErr, round, seedRng, &clock, tr, res)
+		case 2:
+			g, err = stressOnceRound(instAny, round, seedRng, &clock, tr, res)
+		default:
+			g, err = stressOnceRound(instIntKey, round, seedRng, &clock, tr, res)
 		}
-		var ready, wg sync.WaitGroup
-		start := make(chan struct{})
-		for i := 0; i < stressG; i++ {
-			i := i
-			ready.Add(1)
-			wg.Add(1)
-			go func() {
-				defer wg.Done()
-				rng := rand.New(rand.NewPCG(seeds[i], uint64(i)))
-				m := 1 + rng.IntN(3)
-				var mine []stamped
-				ready.Done()
-				<-start
-				for j := 0; j < m; j++ {
-					k := "k" + strconv.Itoa(rng.IntN(nk))
-					inv := clock.Add(1)
-					x := oc.Get(k)
-					ret := clock.Add(1)
-					v := 0
-					if x != nil {
-						v = *x
-					}
-					mine = append(mine, stamped{inv, map[string]any{"t": "inv", "g": i, "k": k}},
-						stamped{ret, map[string]any{"t": "ret", "g": i, "k": k, "v": v}})
-				}
-				logs[i] = mine
-			}()
-		}
-		ready.Wait()
-		close(start)
-		if err := waitOrTimeout(&wg); err != nil {
+		if err != nil {
 			return err
 		}
-		all := append([]stamped{}, shared.evs...)
-		for _, l := range logs {
-			all = append(all, l...)
-			gets += len(l) / 2
-		}
-		sort.Slice(all, func(a, b int) bool { return all[a].stamp < all[b].stamp })
-		tr.Emit(map[string]any{"t": "new", "round": round})
-		for _, e := range all {
-			tr.Emit(e.ev)
-		}
-		// the same observables, directly
-		ncons.Range(func(k, c any) bool {
-			if n := c.(*atomic.Int64).Load(); n != 1 {
-				res.Mismatch("OnceConstructor stress: constructor invocations per key",
-					fmt.Sprintf("the constructor was invoked %d times for one key under %d concurrent goroutines", n, stressG),
-					map[string]any{"round": round, "key": k})
-			}
-			return true
-		})
+		gets += g
 	}
 	if err := tr.Close(); err != nil {
 		return err
 	}
 	return res.Close(map[string]any{"rounds": rounds, "gets": gets, "events": tr.N, "goroutines": stressG})
+}
+
+// stressOnceRound is one round of stress-once on one instantiation; the
+// constructor returns the zero value of V (logged as v = 0) for a random
+// subset of the keys.
+func stressOnceRound[K comparable, V any](in inst[K, V], round int, seedRng *rand.Rand, clock *atomic.Int64,
+	tr *vh.Trace, res *vh.Result) (gets int, err error) {
+	nk := 1 + seedRng.IntN(4)
+	zero := map[string]bool{}
+	for i := 0; i < nk; i++ {
+		zero[string(rune('a'+i))] = seedRng.IntN(3) == 0
+	}
+	var shared evlog
+	var nextID atomic.Int64
+	var ncons sync.Map // key -> *atomic.Int64
+	delay := seedRng.IntN(6)
+	oc := syncutil.NewOnceConstructor(func(kk K) (x V) {
+		k := in.str(kk)
+		c, _ := ncons.LoadOrStore(k, &atomic.Int64{})
+		c.(*atomic.Int64).Add(1)
+		id := int(nextID.Add(1))
+		if zero[k] {
+			id = 0
+		} else {
+			x = in.mk(id)
+		}
+		spin(delay)
+		shared.add(clock.Add(1), map[string]any{"t": "cons", "k": k, "v": id})
+		return x
+	})
+	logs := make([][]stamped, stressG)
+	seeds := make([]uint64, stressG)
+	for i := range seeds {
+		seeds[i] = seedRng.Uint64()
+	}
+	var ready, wg sync.WaitGroup
+	start := make(chan struct{})
+	for i := 0; i < stressG; i++ {
+		i := i
+		ready.Add(1)
+		wg.Add(1)
+		go func() {
+			defer wg.Done()
+			rng := rand.New(rand.NewPCG(seeds[i], uint64(i)))
+			m := 1 + rng.IntN(3)
+			var mine []stamped
+			ready.Done()
+			<-start
+			for j := 0; j < m; j++ {
+				k := string(rune('a' + rng.IntN(nk)))
+				inv := clock.Add(1)
+				x := oc.Get(in.key(k))
+				ret := clock.Add(1)
+				mine = append(mine, stamped{inv, map[string]any{"t": "inv", "g": i, "k": k}},
+					stamped{ret, map[string]any{"t": "ret", "g": i, "k": k, "v": in.id(x)}})
+			}
+			logs[i] = mine
+		}()
+	}
+	ready.Wait()
+	close(start)
+	if err := waitOrTimeout(&wg); err != nil {
+		return 0, err
+	}
+	all := append([]stamped{}, shared.evs...)
+	for _, l := range logs {
+		all = append(all, l...)
+		gets += len(l) / 2
+	}
+	sort.Slice(all, func(a, b int) bool { return all[a].stamp < all[b].stamp })
+	tr.Emit(map[string]any{"t": "new", "round": round, "inst": in.name})
+	for _, e := range all {
+		tr.Emit(e.ev)
+	}
+	// the same observable, directly
+	ncons.Range(func(k, c any) bool {
+		if n := c.(*atomic.Int64).Load(); n != 1 {
+			what := fmt.Sprintf("the constructor was invoked %d times for one key under %d concurrent goroutines (%s)", n, stressG, in.name)
+			if zero[k.(string)] {
+				what += "; the constructor returns the zero value for this key"
+			}
+			res.Mismatch("OnceConstructor stress: constructor invocations per key ("+in.name+")", what,
+				map[string]any{"round": round, "key": k, "instantiation": in.name})
+		}
+		return true
+	})
+	return gets, nil
 }
 
 // stressSemaHWM: vh c17 stress-sema-hwm <result> <rounds>
@@ -589,4 +645,139 @@ func stressSema(args []string) error {
 		return err
 	}
 	return res.Close(map[string]any{"rounds": rounds, "calls": calls, "events": tr.N, "goroutines": ng, "n": n})
+}
+
+// raceContend: vh c17 race-contend <result> <rounds>
+//
+// The contention scenario of spec/sync/SemaContend.tla on the real code,
+// un-instrumented (built with -race): K > N goroutines, released by a barrier,
+// call Acquire on a semaphore of capacity N with their own live contexts;
+// nobody calls Release.  When every goroutine has either returned or is
+// parked inside syncutil (wait state read from the runtime, no shared
+// instrumentation), all contexts are cancelled.  Every loser must then return
+// its context's error although no slot ever becomes free.  A goroutine that is
+// still parked inside syncutil 10 s after its context was cancelled is the
+// violation (e.g. a send outside the select that ignores ctx).
+func raceContend(args []string) error {
+	if len(args) != 2 {
+		return fmt.Errorf("usage: race-contend <result> <rounds>")
+	}
+	rounds, _ := strconv.Atoi(args[1])
+	res, err := vh.NewResult(args[0])
+	if err != nil {
+		return err
+	}
+	rng := vh.Rand(1708)
+	calls, losers, done := 0, 0, 0
+rounds:
+	for round := 0; round < rounds; round++ {
+		done++
+		n := 1 + round%3
+		k := n + 1 + rng.IntN(8-n) // n+1 .. 8 contenders
+		sem := syncutil.NewChanSemaphore(uint(n))
+		ccs := make([]callCtx, k)
+		for i := range ccs {
+			ccs[i] = makeCtx(round+i, false)
+		}
+		gids := make([]uint64, k)
+		errs := make([]error, k)
+		var ready, wg sync.WaitGroup
+		start := make(chan struct{})
+		for i := 0; i < k; i++ {
+			i := i
+			ready.Add(1)
+			wg.Add(1)
+			go func() {
+				defer wg.Done()
+				gids[i] = curGID()
+				ready.Done()
+				<-start
+				errs[i] = sem.Acquire(ccs[i].ctx)
+			}()
+		}
+		ready.Wait()
+		close(start)
+		calls += k
+		det := map[string]any{"round": round, "capacity": n, "contenders": k}
+
+		// 1. wait until everybody has returned or is parked inside syncutil
+		parked := func() (nParked, nGone int, states []string) {
+			all := allGoroutineStates()
+			for i, id := range gids {
+				gs, ok := all[id]
+				switch {
+				case !ok:
+					nGone++
+				case gs.blockedInLib():
+					nParked++
+					states = append(states, fmt.Sprintf("contender %d: [%s] inside syncutil", i, gs.state))
+				}
+			}
+			return nParked, nGone, states
+		}
+		deadline := time.Now().Add(hangWait)
+		for {
+			p, g, _ := parked()
+			if p+g == k {
+				if g > n {
+					res.Mismatch(fmt.Sprintf("ChanSemaphore contention: capacity %d", n),
+						fmt.Sprintf("%d Acquires succeeded on a semaphore of capacity %d without any Release", g, n), det)
+					for _, cc := range ccs {
+						cc.cancel()
+					}
+					break rounds
+				}
+				if g < n {
+					res.Mismatch(fmt.Sprintf("ChanSemaphore contention: capacity %d, free slot", n),
+						fmt.Sprintf("only %d of %d contenders acquired a semaphore of capacity %d; the others are parked inside Acquire although a slot is free", g, k, n), det)
+					for _, cc := range ccs {
+						cc.cancel()
+					}
+					break rounds
+				}
+				break
+			}
+			if time.Now().After(deadline) {
+				return fmt.Errorf("race-contend round %d: contenders neither returned nor parked within %s (overloaded machine?)", round, hangWait)
+			}
+			runtime.Gosched()
+		}
+		// 2. cancel every context; no Release
+		for _, cc := range ccs {
+			cc.cancel()
+		}
+		fin := make(chan struct{})
+		go func() { wg.Wait(); close(fin) }()
+		select {
+		case <-fin:
+		case <-time.After(hangWait):
+			p, _, states := parked()
+			if p == 0 {
+				return fmt.Errorf("race-contend round %d: contenders did not finish within %s but none is parked inside syncutil", round, hangWait)
+			}
+			det["stuck"] = states
+			res.Mismatch("ChanSemaphore contention: Acquire does not return after its context was cancelled",
+				fmt.Sprintf("Acquire does not return after its context was cancelled (blocked in a send that ignores ctx): %d of %d contenders for capacity %d are still parked inside syncutil %s after every context was cancelled, no slot free, no Release",
+					p, k, n, hangWait), det)
+			break rounds
+		}
+		// 3. everybody returned: winners nil, losers their context's error
+		oks := 0
+		for i, e := range errs {
+			if e == nil {
+				oks++
+				continue
+			}
+			losers++
+			if ce := ccs[i].ctx.Err(); ce == nil || !errors.Is(e, ce) || !errors.Is(e, ccs[i].want) {
+				res.Mismatch("ChanSemaphore contention: Acquire error",
+					fmt.Sprintf("a losing Acquire returned %q, not its context's error %v (%s)", e, ce, ccs[i].kind), det)
+			}
+		}
+		if oks != n {
+			res.Mismatch(fmt.Sprintf("ChanSemaphore contention: capacity %d", n),
+				fmt.Sprintf("%d Acquires returned nil on a semaphore of capacity %d without any Release", oks, n), det)
+		}
+	}
+	return res.Close(map[string]any{"rounds": done, "calls": calls, "losers_returned_ctx_err": losers})
 }
